@@ -126,6 +126,21 @@ namespace vt
       run_strings< Root, fam3, tc_full, AA, MR, TE, LFCRLF >( sigma, maxlen );
    }
 
+   // coverage (C08): state_control< tracing control > with the library's coverage state as the last state
+   template< typename Root >
+   void cfgs_cov( const std::string& sigma, int maxlen )
+   {
+      g().fuel_cases = 0;
+      for_all_strings( sigma, maxlen, [ & ]( const std::string& s ) {
+         if( g().fuel_cases >= 3 )
+            return;
+         run_cov_case< Root, pegtl::nothing, tc_hid_uw, TE, LFCRLF >( CaseCfg(), s );
+         run_cov_case< Root, fam3, tc_full_uw, TE, LFCRLF >( CaseCfg(), s );
+         run_cov_case< Root, fam3, tc_hid, TL, LFCRLF >( CaseCfg(), s );
+         run_cov_case< Root, fam1, tc_full, TE, LFCRLF >( CaseCfg(), s );
+      } );
+   }
+
    // must_if controls (C05): a rule with a message raises on local failure (or as the selective raise_on_failure says)
    template< typename Root >
    void cfgs_mi( const std::string& sigma, int maxlen )
@@ -220,39 +235,78 @@ namespace vt
    void classes_files( const std::string& s )
    {
       CaseCfg c;
-      {
+      // an exception that escapes the construction of an input (reading, mapping, ...) is part of what the input class does
+      // with these bytes: it is logged as the outcome of the case
+      try {
          pegtl::string_input<> in( s, "src" );
          run_input_case< Root, Act, Ctl, A, M >( c, 3, s, in );
+      }
+      catch( ... ) {
+         input_ctor_failed< Root, Act, Ctl, A, M >( c, 3, 0, s );
       }
       {
          std::ofstream f( scratch_file(), std::ios::binary | std::ios::trunc );
          f.write( s.data(), std::streamsize( s.size() ) );
       }
-      {
+      try {
          pegtl::read_input<> in( scratch_file() );
          run_input_case< Root, Act, Ctl, A, M >( c, 4, s, in );
       }
+      catch( ... ) {
+         input_ctor_failed< Root, Act, Ctl, A, M >( c, 4, 0, s );
+      }
+      try {
+         pegtl::read_input< pegtl::tracking_mode::lazy > in( scratch_file() );
+         run_input_case< Root, Act, Ctl, A, M >( c, 4, s, in );
+      }
+      catch( ... ) {
+         input_ctor_failed< Root, Act, Ctl, A, M >( c, 4, 1, s );
+      }
 #if defined( __unix__ )
       if( !s.empty() ) {
-         pegtl::mmap_input<> in( scratch_file() );
-         run_input_case< Root, Act, Ctl, A, M >( c, 5, s, in );
+         try {
+            pegtl::mmap_input<> in( scratch_file() );
+            run_input_case< Root, Act, Ctl, A, M >( c, 5, s, in );
+         }
+         catch( ... ) {
+            input_ctor_failed< Root, Act, Ctl, A, M >( c, 5, 0, s );
+         }
       }
 #endif
-      if( s.find( '\0' ) == std::string::npos ) {
-         std::string copy = s;
-         char* argv[] = { const_cast< char* >( "prog" ), copy.data(), nullptr };
-         pegtl::argv_input<> in( argv, 1 );
-         run_input_case< Root, Act, Ctl, A, M >( c, 6, s, in );
+      try {
+         // file_input: mmap_input where available, else read_input; empty files included
+         pegtl::file_input<> in( scratch_file() );
+         run_input_case< Root, Act, Ctl, A, M >( c, 5, s, in );
       }
-      {
+      catch( ... ) {
+         input_ctor_failed< Root, Act, Ctl, A, M >( c, 5, 0, s );
+      }
+      if( s.find( '\0' ) == std::string::npos ) {
+         try {
+            std::string copy = s;
+            char* argv[] = { const_cast< char* >( "prog" ), copy.data(), nullptr };
+            pegtl::argv_input<> in( argv, 1 );
+            run_input_case< Root, Act, Ctl, A, M >( c, 6, s, in );
+         }
+         catch( ... ) {
+            input_ctor_failed< Root, Act, Ctl, A, M >( c, 6, 0, s );
+         }
+      }
+      try {
          std::istringstream is( s );
          pegtl::istream_input<> in( is, s.size() + 16, "src" );
          run_input_case< Root, Act, Ctl, A, M >( c, 7, s, in );
       }
+      catch( ... ) {
+         input_ctor_failed< Root, Act, Ctl, A, M >( c, 7, 0, s );
+      }
       if( std::FILE* fp = std::fopen( scratch_file().c_str(), "rb" ) ) {
-         {
+         try {
             pegtl::cstream_input<> in( fp, s.size() + 16, "src" );
             run_input_case< Root, Act, Ctl, A, M >( c, 8, s, in );
+         }
+         catch( ... ) {
+            input_ctor_failed< Root, Act, Ctl, A, M >( c, 8, 0, s );
          }
          std::fclose( fp );
       }
